@@ -12,52 +12,72 @@ from props import predicate, kv, unhex
 CONFIG = {
     "design_ref": "4.4",
     "technique": "Lean 4 proof: executable model of turtle/src/serializer/_pretty.rs (build_labelled, build_subject_types, "
-                 "build_lists/list_item, write_*) with kernel-checked theorems on token safety (verified regex inclusion on regexes "
-                 "regenerated from /repo), prefix choice, list and labelling analyses; tie = byte-exact differential of the model's "
-                 "text against TurtleSerializer/TrigSerializer plus a semantic round-trip oracle (real serializer -> real Rio-based "
-                 "parsers -> own exact blank-node isomorphism test)",
-    "level_text": "Proof (all inputs) for the listed theorems about the model: shorthand tests for xsd:integer/boolean, PN_LOCAL, PN_PREFIX, "
-                  "blank node labels are included in the W3C Turtle tokens (verified decision procedure, native_decide per regex); "
-                  "xsd:decimal/double carried as verdicts (refuted on the shipped tree by a checked word); get_checked_prefixed_pair "
-                  "returns a map entry with ns ++ suffix = iri, longest acceptable namespace; every collection found by build_lists is a "
-                  "well-formed rdf:first/rest chain (list_sound); labelling lemmas. The end-to-end statement (parse(render(D)) isomorphic "
-                  "to D) is NOT proved: it is checked by the round-trip differential on generated shapes.",
-    "level_note": "Trusted: W3C Turtle grammar transcription (Model/TurtleTokens.lean); extract.py regex translator and "
-                  "tools/extractors/c04.py (recognises shipped/fixed text of three branches, fails closed); native_decide for the regex "
-                  "obligations; Rio's Turtle/TriG parsers and formatters (third party, only observed); the harness's isomorphism test. "
-                  "Streaming (non-pretty) mode is Rio's formatter: round-trip differential only.",
+                 "build_lists/list_item, write_*) and of TurtleConfig::with_indentation, with kernel-checked theorems on token safety "
+                 "(verified regex inclusion on regexes regenerated from /repo), quoted literals (C03's reader), prefix choice, "
+                 "indentation, dataset collection, subject classification, list and labelling analyses; tie = byte-exact differential "
+                 "of the model's text against TurtleSerializer/TrigSerializer (both entry points: graph/dataset and streaming source; "
+                 "own and borrowed prefix map) plus a semantic round-trip oracle (real serializer -> the format's own Rio-based parser "
+                 "-> own exact blank-node isomorphism test by colour refinement, statements counted with multiplicity)",
+    "level_text": "Proof (all inputs) for the listed theorems about the model: the branch switches regenerated from /repo are the "
+                  "repaired ones (repo_flags: a regression fails this obligation); shorthand tests for xsd:integer/decimal/double/boolean, "
+                  "PN_LOCAL, PN_PREFIX, blank node labels, BCP47-shaped language tags are included in the W3C Turtle tokens (verified "
+                  "decision procedure, native_decide per regex), hence bare_literal_sound for every datatype and lexical form; a quoted "
+                  "literal decodes to its lexical form; get_checked_prefixed_pair returns a map entry with ns ++ suffix = iri, longest "
+                  "acceptable namespace; mkDataset neither drops nor invents a quad; build_subject_types has an entry for every "
+                  "(graph, subject); the writers never change which subject a table entry stands for and, for any input stream, no Root "
+                  "subject of any graph is left unwritten at the end of serialize (roots_all_written_partial, incl. that the loop over the "
+                  "named graphs never meets a None graph name); every collection found by build_lists is a well-formed rdf:first/rest chain with one rdf:rest per "
+                  "cell; labelling lemmas incl. every blank-node cycle has a labelled node. IndentSafe (accepted indentations are Turtle "
+                  "white space) holds on the checked tree (indent_safe_holds; it was refuted before /repo d9e6461, finding C04-indent-unicode-ws). "
+                  "The end-to-end statement (parse(render(D)) isomorphic to D) and 'every SubTree/Annotation subject is written, nothing twice' are NOT "
+                  "proved: they are checked by the round-trip differential on generated shapes.",
+    "level_note": "Trusted: W3C Turtle grammar transcription (Model/TurtleTokens.lean) and C03's STRING_LITERAL_QUOTE reader (Model/NT.lean); "
+                  "extract.py regex translator and tools/extractors/c04.py (recognises shipped/fixed text of four branches, fails closed); "
+                  "native_decide for the regex obligations; Rio's Turtle/TriG parsers and formatters (third party, only observed); the "
+                  "harness's isomorphism test. Streaming (non-pretty) mode is Rio's formatter: round-trip differential only. Generalized "
+                  "RDF (blank-node / literal predicates, variables) is outside the property: model differential only, no oracle.",
     "tables": ["regexes", "prettyflags"],
     "lean_targets": ["SophiaProofs.Props.C04", "SophiaProofs.Audit.C04"],
     "theorems": [
-        "integer_safe", "boolean_safe", "pn_local_safe", "pn_prefix_safe", "bnode_label_safe",
-        "decimal_safe_verdict", "double_safe_verdict", "langtag_safe_verdict",
+        "repo_flags",
+        "integer_safe", "boolean_safe", "decimal_safe", "double_safe", "pn_local_safe", "pn_prefix_safe", "bnode_label_safe",
+        "langtag_wf_safe",
         "turtle_integer_decimal_disjoint", "turtle_integer_double_disjoint", "turtle_decimal_double_disjoint",
         "iri_no_backslash",
         "prefix_pick_sound", "prefix_pick_unique", "prefix_pick_longest", "prefixed_name_sound",
-        "bare_literal_sound_partial",
-        "list_item_spec", "list_sound", "list_cell_unique_pred", "list_cell_one_rest", "multi_rest_witness", "unlabelled_sound_partial", "unlabelled_in_arcs", "unlabelled_one_graph",
-        "cycle_tail_witness", "cycle_has_labelled", "cycle_has_labelled_refuted", "cycle_has_labelled_iff",
+        "bare_literal_sound", "bare_literal_written", "quoted_literal_reads_back", "lang_literal_reads_back", "quoted_string_roundtrip",
+        "indent_safe_partial", "indent_safe_holds", "indent_safe_refuted", "indent_safe_iff", "indent_turtle_ws_accepted", "indent_unindent",
+        "list_item_spec", "list_sound", "list_cell_unique_pred", "list_cell_one_rest", "list_cell_one_rest_holds", "multi_rest_witness",
+        "unlabelled_sound_partial", "unlabelled_in_arcs", "unlabelled_one_graph",
+        "cycle_tail_witness", "cycle_has_labelled", "cycle_has_labelled_holds", "cycle_has_labelled_refuted", "cycle_has_labelled_iff",
+        "dataset_no_invention", "dataset_no_loss", "dataset_no_loss_wf", "every_subject_classified", "subject_types_no_invention",
+        "write_graph_roots_done", "roots_all_written_partial",
     ],
     "native_ok": [
-        "integer_safe", "boolean_safe", "pn_local_safe", "pn_prefix_safe", "bnode_label_safe",
-        "decimal_safe_verdict", "double_safe_verdict", "langtag_safe_verdict",
+        "integer_safe", "boolean_safe", "decimal_safe", "double_safe", "pn_local_safe", "pn_prefix_safe", "bnode_label_safe",
+        "langtag_wf_safe",
         "turtle_integer_decimal_disjoint", "turtle_integer_double_disjoint", "turtle_decimal_double_disjoint",
-        "iri_no_backslash", "prefixed_name_sound", "bare_literal_sound_partial",
+        "iri_no_backslash", "prefixed_name_sound", "bare_literal_sound",
         "cycle_tail_witness", "cycle_has_labelled_refuted", "cycle_has_labelled_iff", "multi_rest_witness",
     ],
-    "trivial_re": r"^n=0 |^bad-",
+    "trivial_re": r"^n=0 |^bad-|cfg=rejected",
     "rule": "datasets assembled from shape fragments (blank-node trees, shared / unreferenced nodes, cycles with and without tails, "
-            "well-formed and 16 kinds of malformed rdf:first/rest structures, quoted triples asserted / not / elsewhere, nested "
-            "annotations, blank nodes spanning graphs and as graph names, rdf:nil in every position) x Turtle/TriG x pretty/streaming x "
-            "8 indentations x 8 prefix maps, in shuffled stream order; all 1- and 2-triple datasets over {_:a,_:b,x:i,rdf:nil,1} x "
+            "well-formed and 16 kinds of malformed rdf:first/rest structures, quoted triples asserted / not / elsewhere / nested three "
+            "deep, nested annotations, blank nodes spanning graphs and as graph names, rdf:nil in every position) x Turtle/TriG x "
+            "pretty/streaming x both API entry points x 8 Turtle-white-space indentations + 16 other ones (Unicode white space, "
+            "non-white-space: must be rejected) x 8 prefix maps, in shuffled stream order; large datasets (up to ~70 subjects in one "
+            "graph, 60-item collections, 14 named graphs, 250 blank nodes, 60-deep nesting, 30-cycles); long literals assembled from "
+            "quotes / escapes / syntax delimiters, 13 language tags; all 1- and 2-triple datasets over {_:a,_:b,x:i,rdf:nil,1} x "
             "{x:p,rdf:first,rdf:rest} and sampled 3-5-triple ones; every datatype x lexical form (12 x 54) as single literals; IRIs built "
-            "from namespace + local-name atoms x random prefix maps with distinct prefixes. Distinct = distinct request lines; non-trivial "
-            "= at least one quad serialised.",
+            "from namespace + local-name atoms x random prefix maps with distinct prefixes; generalized RDF through the pretty TriG writer "
+            "(model differential only). Distinct = distinct request lines; non-trivial = at least one quad serialised by an accepted "
+            "configuration.",
     "trusted_base": ["W3C Turtle 1.1 grammar terminals, transcribed in lean/SophiaModel/Model/TurtleTokens.lean",
                      "rio_turtle 0.8.6 parsers/formatters (observed through the round trip only)",
-                     "harness/props/c04/src/iso.rs (exact blank-node isomorphism by backtracking)"],
+                     "harness/props/c04/src/iso.rs (exact blank-node isomorphism: colour refinement + individualisation)"],
     "assumptions": ["str::cmp = code point order (DESIGN 3.1)", "language tags are compared case-insensitively (RDF 1.1)",
-                    "prefix maps have pairwise distinct prefixes; indentation consists of Turtle white space"],
+                    "prefix maps have pairwise distinct prefixes; language tags are BCP47-shaped (rio's parser validates them: "
+                    "LanguageTag::new also accepts 'a' or 'A0', which do not read back - documented as 'more permissive than BCP47')"],
     "exec_timeout": 3000,
 }
 
@@ -118,6 +138,20 @@ def c04_multi_rest(f):
         return False
     m = re.match(r"m(\d+),x(\d+)", f.get("detail", ""))
     return bool(m) and int(m.group(1)) > 0 and (int(m.group(2)) == 0 or _n(M, "bare_bad") > 0)
+
+
+@predicate
+def c04_indent_ws(f):
+    """`with_indentation` accepted an indentation containing Unicode white space that is not Turtle white space
+    (WS ::= #x20 | #x9 | #xD | #xA): the pretty printer puts it between tokens.  Narrow: the model's ghost flag says
+    the indentation has such a character (a function of the request alone), and the harness observed that the very
+    same request, through the very same implementation, round-trips once exactly those characters of the indentation
+    are replaced by spaces (`x.reindent=ok`) - so the indentation is the only cause.  Does not require the model's
+    text to agree: the evidence is on the implementation's side, and an unrelated model/impl difference must not turn
+    this finding into the "failing input" of something else."""
+    I, M = kv(f["impl"]), kv(f["model"])
+    return (M.get("indent_bad") == "1" and I.get("cfg") == "ok" and I.get("x.reindent") == "ok"
+            and _field(f, "parse_error", "not_isomorphic"))
 
 
 @predicate
